@@ -182,7 +182,8 @@ def gen_sequence(seed, n):
             own = r.random() < 0.6
             dk = k if own else r.choice([x for x in seeds.keys if x is not k])
             etag = r.choice([["e", tgt["id"]], ["e", tgt["id"], "wss://x"], ["e"], ["e", "zz"], ["e", tgt["id"][:63]], ["e", tgt["id"].upper()],
-                             ["e", ""], ["e", "00" * 32], ["e", tgt["id"] + "0"]])
+                             ["e", ""], ["e", "00" * 32], ["e", tgt["id"] + "0"], ["e", tgt["id"][:63] + "\n"], ["e", tgt["id"] + "\n"], ["e", " " + tgt["id"][1:]],
+                             ["e", tgt["id"][:63] + "\n"]])
             tags = [etag] + ([["e", r.choice(prior)[0]["id"]]] if r.random() < 0.4 else [])
             ev = ref.make_event(dk, kind=5, created_at=max(1, tgt["created_at"]) + r.choice([-1, 0, 1, 100]) if isinstance(tgt["created_at"], int) and 0 < tgt["created_at"] < 2 ** 31 - 200 else gen.T0,
                                 tags=tags, content=subm.token("del"))
